@@ -7,7 +7,8 @@ FIXED = [
  ("C12", "791da0f", "allocate() recursed once per grow_step: RecursionError for requests much larger than grow_step", "corpus/C12/recursion_small_grow_step.json"),
  ("C01", "6d8c071", "String(capacity) on reused (non-zero) memory read back stale bytes instead of ''", "corpus/C01/string_capacity_stale_memory.json"),
  ("C01", "2a2cee0", "Array.to_nplike/to_nparray: AssertionError for 3-axis cyclic axis orders and for empty N-D arrays", "corpus/C01/to_nplike_three_cycle.json"),
- ("C13", "44dc369", "BufferNumpy.update_from_nplike raised ValueError for F-ordered / strided sources", "corpus/C01/ndarray_into_non_C_order.json"),
+ ("C13", "44dc369", "BufferNumpy.update_from_nplike raised ValueError for F-ordered / strided sources", "corpus/C13/nplike_F_order_numpy.json"),
+ ("C13", "7309ba2", "update_from_buffer counted items instead of bytes for ndarray.data sources of itemsize > 1: BufferNumpy raised ValueError, BufferByteArray silently resized its bytearray", "corpus/C13/update_from_buffer_itemsize_bytearray.json"),
  ("C01", "03d70c7", "array with non-C axis order initialised from an ndarray read back permuted", "corpus/C01/ndarray_into_non_C_order.json"),
  ("C01", "c3d0913", "arrays from nested lists: N-D arrays of dynamic items (TypeError), arrays of arrays of arrays (ValueError), lists of (typename, data) union items (ValueError)", "corpus/C01/nd_dynamic_items_from_list.json"),
  ("C09", "7e8e29f", "arrays whose items hold references were byte-copied: references of the copy dangling", "corpus/C01/array_of_refs_from_xobject.json"),
